@@ -21,6 +21,7 @@ import (
 	"github.com/bronlabs/bron-crypto/pkg/proofs/elgamal/elog"
 	"github.com/bronlabs/bron-crypto/pkg/proofs/okamoto"
 	"github.com/bronlabs/bron-crypto/pkg/proofs/sigma"
+	"github.com/bronlabs/bron-crypto/pkg/proofs/sigma/compiler"
 	"github.com/bronlabs/bron-crypto/pkg/proofs/sigma/compose/sigand"
 	"github.com/bronlabs/bron-crypto/pkg/proofs/sigma/compose/sigor"
 	"verif/harness/vlib"
@@ -36,6 +37,9 @@ type part[X sigma.Statement, W sigma.Witness, A sigma.Statement, S sigma.State, 
 	shape     string
 	mk        func(prng io.Reader) (sigma.Protocol[X, W, A, S, Z], error)
 	mkRenamed func(prng io.Reader) (sigma.Protocol[X, W, A, S, Z], error)
+	// mkVerifier: the verifying side's protocol object when it is built from public material only
+	mkVerifier func(prng io.Reader) (sigma.Protocol[X, W, A, S, Z], error)
+	compilers  []compiler.Name // nil: all three
 	fresh     func(i int) (X, W)
 	alts      func(x X) []negStmt[X] // the statement with one component altered / moved / dropped
 	extract   func(p sigma.Protocol[X, W, A, S, Z], x X, a A, es []sigma.ChallengeBytes, zs []Z) (W, error)
@@ -47,7 +51,7 @@ func (p *part[X, W, A, S, Z]) inst(protoName, group string, order *big.Int) inst
 	_, wb := p.fresh(badIdx)
 	s := &sig[X, W, A, S, Z]{
 		proto: protoName, group: group, shape: p.shape, order: order,
-		mk: p.mk, mkRenamed: p.mkRenamed, x: x, w: w, badW: &wb, extract: p.extract,
+		mk: p.mk, mkRenamed: p.mkRenamed, mkVerifier: p.mkVerifier, compilers: p.compilers, x: x, w: w, badW: &wb, extract: p.extract,
 	}
 	s.neg = append(s.neg, negStmt[X]{"stmt-other", xo})
 	if p.alts != nil {
